@@ -128,6 +128,7 @@ static std::string stripRoot(const XMLCh* uri) {
     return s;
 }
 
+static bool allWs(const XMLCh* s) { for (; s && *s; ++s) if (*s != 0x20 && *s != 9 && *s != 0xA && *s != 0xD) return false; return true; }
 static void dumpNode(DOMNode* n, std::string& out);
 static void dumpChildren(DOMNode* p, std::string& out) {
     std::string pendingText;
@@ -139,10 +140,11 @@ static void dumpChildren(DOMNode* p, std::string& out) {
             if (v.empty()) continue;
             // white space between the children of the document is not part of the infoset (the code keeps such
             // Text nodes when they come out of an xi:fallback)
-            if (p->getNodeType() == DOMNode::DOCUMENT_NODE && XMLString::isAllWhiteSpace(c->getNodeValue())) continue;
+            if (p->getNodeType() == DOMNode::DOCUMENT_NODE && allWs(c->getNodeValue())) continue;
             if (havePending) pendingText += "." + v; else { pendingText = v; havePending = true; }
             continue;
         }
+        if (t == DOMNode::PROCESSING_INSTRUCTION_NODE) continue;      // not compared (see dumpNode)
         if (havePending) { out += " T" + pendingText; havePending = false; pendingText.clear(); }
         dumpNode(c, out);
     }
